@@ -117,17 +117,31 @@ that runs first on every check; on the unchanged tree they pass.
 
 ### 10.2 Harmless refactorings (must not be reported)
 
-Eleven behaviour-preserving refactorings (ten written by an independent agent, one equivalent mutant suggested by a seeding agent) (`harmless/h*/patch.diff` + `meta.json`: renamed
-locals and parameters, `if` ↔ `match` ↔ early return, negated comparisons, extracted/inlined private helpers, reordered
-independent private-field writes, one memory ordering *strengthened*, bound sub-expressions, reformatting). Each keeps the
-pinned suite green and compiles with `async` and `vmem`. `tools/harmlesstest.sh` applies each to /repo, runs all 18 checks
-and reverts; a VIOLATION there is a false alarm (of the kind the brief allows — a broken proof or correspondence with no
-failing input — but an alarm nonetheless).
+Forty-seven behaviour-preserving refactorings in four batches, each batch written by independent agents that saw nothing of
+/verif (`harmless/*/patch.diff` + `meta.json`): `h1`–`h11` (renamed locals and parameters, `if` ↔ `match` ↔ early return,
+negated comparisons, extracted/inlined private helpers, reordered independent private-field writes, one memory ordering
+*strengthened*, bound sub-expressions, reformatting; `h11` is an equivalent mutant suggested by a seeding agent),
+`g1`–`g13` (equivalent index arithmetic — three-way `cmp`, `wrapping_sub`, `checked_sub`, `min` —, bodies moved into default
+methods of the iterator traits or into private helpers, `split_at_mut` instead of indexing, rewritten constructors and
+cell primitives, `get_range_max` split per configuration, `NonZeroUsize` zero tests) and `k1`–`k8`/`m1`–`m8` (a shared
+free `ring_distance`, the producer's distance as `gap − 1`, `checked_sub` in `go_back` and in the chunk functions, pointer
+casts instead of `transmute`, `?`/`let … else`, iterator aliases and destructuring of `self`, accessor and `set_*_alive`
+helpers in both buffer variants, std calls replaced by their definitions in the cell primitives, `poll` unrolled into
+attempt – register – attempt, named locals in the constructors, a `release()` behind `BufRef`'s destructor, an mmap helper)
+and `n1`–`n7`, whose authors were asked for ideas not used before (`(index + count) % len`, a `Window` struct for the chunk
+geometry, `while` loops with a counter, `_available` as a trait default, `len − count + idx`, `poll` as a `for` over
+`[false, true]`, the split preamble as provided methods of `IterManager`).
+Each keeps the pinned suite green and compiles with `async` and `vmem`. `tools/harmlesstest.sh` applies each to /repo,
+runs all 18 checks and reverts; a VIOLATION there is a false alarm (of the kind the brief allows — a broken proof or
+correspondence with no failing input — but an alarm nonetheless).
 
-First run of the ten: 7 broke at least one proof obligation (`no-failing-input-found`): shape-dependent `rfl` lemmas about the
-generated kernel, skeletons that recorded private-field writes and local variable names, the textual pin of `poll`, the
-split and mmap extraction that did not look through local bindings, one exact ordering pin. The translator and the
-lemmas were made shape-independent as described in §2.1; current state:
+How the batches went, each against the machinery as it stood when the batch arrived: of `h1`–`h10`, 7 broke at least one
+proof obligation (`no-failing-input-found`); of `g1`–`g13`, 11; of the sixteen `k`/`m`, 10; of `n1`–`n7`, all seven — never a concrete failure, always
+the translator meeting a construct outside its subset, a lemma or conformance theorem that depended on the spelling of a
+generated definition, or a textual pin. After each batch the translator, the lemmas and the conformance theorems were
+generalised as described in §2.1 and §8 (no check was loosened: every generalisation still rejects the seeded changes of
+§10.1, which were re-run). The four that still alarm are outside what the translator reads and are left so (§9). Current
+state, all forty-seven against the final machinery:
 
 {chr(10).join(htab)}
 """
